@@ -4,6 +4,7 @@ import (
 	"fmt"
 	"go/types"
 	"sort"
+	"strings"
 )
 
 // Env maps variables to heap cells; scopes are chained.
@@ -75,17 +76,26 @@ func (f *FamState) leaf(p string, base *Sort) *Term {
 }
 
 type World struct {
-	Fams   map[string]*FamState
-	Bal    *Term // Array addr (Array denom Int)
-	Supply *Term // Array denom Int
-	Height *Term
-	Time   *Term
-	Chain  *Term
-	Tag    string
+	Fams    map[string]*FamState
+	Bal     *Term // Array addr (Array denom Int)
+	Supply  *Term // Array denom Int
+	Height  *Term
+	Time    *Term
+	Chain   *Term
+	Tag     string
 	Rest    *Term            // identity of all untouched store families (default)
 	RestMod map[string]*Term // per-module override after a module-level havoc
 	// Lists: abstract "all entries" views per iterator prefix, created lazily (per world version)
 	Version int
+	// ModVer: per-module log of the direct store writes since restOf(module) was last replaced (a module-level havoc
+	// replaces restOf and clears the log). Results of pure functions that iterate a store prefix depend on
+	// verOf(module, prefix): a term that changes with every write to a family the prefix may cover.
+	ModVer map[string][]wEntry
+}
+
+type wEntry struct {
+	Fam string // family id written ("*": any family of the module)
+	Tok *Term
 }
 
 var worldCounter = 0
@@ -109,7 +119,51 @@ func (w *World) Clone() *World {
 	for k, v := range w.Fams {
 		n.Fams[k] = v
 	}
+	if w.ModVer != nil {
+		n.ModVer = make(map[string][]wEntry, len(w.ModVer))
+		for k, v := range w.ModVer {
+			n.ModVer[k] = append([]wEntry(nil), v...)
+		}
+	}
 	return &n
+}
+
+func famConstPart(id string) string {
+	if i := strings.IndexByte(id, '{'); i >= 0 {
+		return id[:i]
+	}
+	return id
+}
+
+// prefixMayCover: may a store iterator with prefix pre see records of family fam?
+func prefixMayCover(fam, pre string) bool {
+	if fam == "*" {
+		return true
+	}
+	fc, pc := famConstPart(fam), famConstPart(pre)
+	return strings.HasPrefix(fc, pc) || strings.HasPrefix(pc, fc)
+}
+
+func verChain(base *Term, log []wEntry, pre string) *Term {
+	v := base
+	for _, e := range log {
+		if prefixMayCover(e.Fam, pre) {
+			v = App("ver.next", SInt, v, e.Tok)
+		}
+	}
+	return v
+}
+
+// verOf is a term that changes whenever the records a store iterator with the given prefix sees may have changed.
+func (w *World) verOf(mod, pre string) *Term {
+	return verChain(w.restOf(mod), w.ModVer[mod], pre)
+}
+
+func (w *World) bumpVer(mod, fam string) {
+	if w.ModVer == nil {
+		w.ModVer = map[string][]wEntry{}
+	}
+	w.ModVer[mod] = append(append([]wEntry(nil), w.ModVer[mod]...), wEntry{Fam: fam, Tok: Fresh("wtok."+mod, SInt)})
 }
 
 // fam returns the family state, creating base variables lazily.
@@ -293,6 +347,29 @@ func mergeWorlds(c *Term, a, b *World) *World {
 			}
 			n.RestMod[m] = r
 		}
+	}
+	n.ModVer = nil
+	vmods := map[string]bool{}
+	for m := range a.ModVer {
+		vmods[m] = true
+	}
+	for m := range b.ModVer {
+		vmods[m] = true
+	}
+	for m := range vmods {
+		la, lb := a.ModVer[m], b.ModVer[m]
+		k := 0
+		for k < len(la) && k < len(lb) && la[k].Fam == lb[k].Fam && la[k].Tok == lb[k].Tok {
+			k++
+		}
+		log := append([]wEntry(nil), la[:k]...)
+		if k < len(la) || k < len(lb) {
+			log = append(log, wEntry{Fam: "*", Tok: Ite(c, verChain(Zero, la[k:], "*"), verChain(Zero, lb[k:], "*"))})
+		}
+		if n.ModVer == nil {
+			n.ModVer = map[string][]wEntry{}
+		}
+		n.ModVer[m] = log
 	}
 	ids := map[string]bool{}
 	for k := range a.Fams {
